@@ -58,6 +58,8 @@ func replayTestGen(ctx *RunCtx, e Entry, v engine.Violation, dir string) (bool, 
 		nfiles, nlines, nameLen, lineLen = 2, 1, 9, 12+7*tier
 	case "verifC18Usage":
 		return replayTestGenUsage(dir)
+	case "verifC18LongLine":
+		return replayTestGenLongLine(dir)
 	}
 	src := filepath.Join(dir, "pkg")
 	os.MkdirAll(src, 0o755)
@@ -142,4 +144,37 @@ func replayTestGen(ctx *RunCtx, e Entry, v engine.Violation, dir string) (bool, 
 
 func replayTestGenUsage(dir string) (bool, string) {
 	return false, "usage counterexamples are not replayed"
+}
+
+// replayTestGenLongLine runs the real test_gen on the three long-line directories of the harness.
+func replayTestGenLongLine(dir string) (bool, string) {
+	bin := filepath.Join(dir, "test_gen.bin")
+	os.MkdirAll(dir, 0o755)
+	build := exec.Command("go", "build", "-o", bin, "./cmd/test_gen")
+	build.Dir = RepoRoot
+	build.Env = append(os.Environ(), "GOFLAGS=-mod=mod", "GOPROXY=off", "GOSUMDB=off", "GOTOOLCHAIN=local")
+	if out, err := runWithTimeout(build, 3*time.Minute); err != nil {
+		return false, "build failed: " + string(out)
+	}
+	defer os.Remove(bin)
+	for _, n := range []int{65535, 65536, 70000} {
+		src := filepath.Join(dir, fmt.Sprintf("pkg%d", n))
+		os.MkdirAll(src, 0o755)
+		long := "//" + strings.Repeat("x", n-2)
+		os.WriteFile(filepath.Join(src, "a.go"), []byte("func testA() bool {\n"+long+"\nfunc failing_testB() bool {\n"), 0o644)
+		goCmd, coqCmd := exec.Command(bin, "-go", src), exec.Command(bin, "-coq", src)
+		goOut, goErr := runWithTimeout(goCmd, time.Minute)
+		coqOut, coqErr := runWithTimeout(coqCmd, time.Minute)
+		if goErr != nil && coqErr != nil {
+			continue // both refuse the input loudly
+		}
+		okGo := strings.Contains(string(goOut), "testA())") && strings.Contains(string(goOut), "failing_testB())")
+		okCoq := strings.Contains(string(coqOut), "testA #()") && strings.Contains(string(coqOut), "failing_testB #()")
+		if !okGo || !okCoq {
+			os.WriteFile(filepath.Join(dir, "cmd.sh"), []byte(fmt.Sprintf("#!/bin/sh\ncd %s && go run ./cmd/test_gen -go %s; go run ./cmd/test_gen -coq %s\n", RepoRoot, src, src)), 0o755)
+			return true, fmt.Sprintf("real test_gen: a source line of %d bytes makes the generators drop the test function that follows it (-go complete: %v, -coq complete: %v, exit status 0)", n, okGo, okCoq)
+		}
+		os.RemoveAll(src)
+	}
+	return false, "real test_gen handles the long lines"
 }
